@@ -32,6 +32,26 @@ BUILD = "connection:FragmentSender.build"
 PARSE = "connection:FragmentSender.parsePayload"
 
 
+def _parse_by_evaluation(ctx, prs, fmt):
+    """FragmentSender.parsePayload decided by partial evaluation: for framed fragments struct.pack(<the writer's prefix format>, id, index,
+    count) + body it must return exactly (id, index, count, body) - empty body, a body that looks like a prefix, extreme field values.
+    None when the function is outside the evaluator's fragment."""
+    import struct
+    from engine.minieval import MiniEval
+    from engine.index import Undecided
+    bad, n = [], 0
+    try:
+        for (a, b, c) in ((1, 1, 1), (65535, 2, 3), (7, 255, 256), (0x1234, 0x5678, 0x9abc)):
+            for body in (b"", b"x", b"\x00\x01\x00\x02\x00\x03", bytes(range(40))):
+                n += 1
+                r = MiniEval(ctx.repo, ctx.folder, prs).call([struct.pack(fmt, a, b, c) + body])
+                if not (r[0] == "return" and isinstance(r[1], (tuple, list)) and list(r[1]) == [a, b, c, body]):
+                    bad.append({"prefix": [a, b, c], "body_length": len(body), "outcome": repr(r)[:80]})
+    except Undecided:
+        return None
+    return n, bad
+
+
 def r1(ctx):
     cap = capacity(ctx)
     bld = ctx.fn(BUILD)
@@ -53,9 +73,16 @@ def r1(ctx):
             hi = fold_int(ctx, prs, n.value.slice.upper) if n.value.slice.upper is not None else None
             slices[norm(n.targets[0])] = (lo, hi)
     src = norm(u.args[0]) if u.args else None
-    ok = slices.get(src) == (None, k) and (k, None) in slices.values() and k == cap.FRAG_OVERHEAD
-    ctx.check(ok, "C06.R1", prs, "parse slices payload[:k] / payload[k:] with k == calcsize == FRAGMENT_OVERHEAD",
-              "the reader removes exactly the bytes the writer prepended", witness={"slices": slices, "k": k, "FRAGMENT_OVERHEAD": cap.FRAG_OVERHEAD}, line=u.lineno)
+    pev = _parse_by_evaluation(ctx, prs, pk.fmt)
+    if pev is not None:
+        ok = not pev[1] and k == cap.FRAG_OVERHEAD
+        ctx.check(ok, "C06.R1", prs, "parse slices payload[:k] / payload[k:] with k == calcsize == FRAGMENT_OVERHEAD",
+                  "the reader removes exactly the bytes the writer prepended - parsePayload evaluated (engine/minieval) on %d framed fragments built with the writer's format: "
+                  "it returns (id, index, count, the bytes after the prefix)" % pev[0], witness={"differences": pev[1][:3], "k": k, "FRAGMENT_OVERHEAD": cap.FRAG_OVERHEAD}, line=u.lineno)
+    else:
+        ok = slices.get(src) == (None, k) and (k, None) in slices.values() and k == cap.FRAG_OVERHEAD
+        ctx.check(ok, "C06.R1", prs, "parse slices payload[:k] / payload[k:] with k == calcsize == FRAGMENT_OVERHEAD",
+                  "the reader removes exactly the bytes the writer prepended", witness={"slices": slices, "k": k, "FRAGMENT_OVERHEAD": cap.FRAG_OVERHEAD}, line=u.lineno)
     # field order: pack(frag_id, 1+index, count)  vs  frag_id, index, count = unpack ; return frag_id, index, count, msg
     # (arguments read through temporaries: count = len(self.fragments))
     from .common import sym_text as _sxp
@@ -66,8 +93,8 @@ def r1(ctx):
     rets = [n for n in walk_own(prs.node) if isinstance(n, ast.Return)]
     rorder = [norm(e) for e in rets[0].value.elts] if rets and isinstance(rets[0].value, ast.Tuple) else []
     body = [t for t, v in slices.items() if v == (k, None)]
-    ok = len(pargs) == 3 and pargs[0] == "self.frag_id" and pargs[1] in ("1 + index", "index + 1") and pargs[2] == "len(self.fragments)" \
-        and len(uargs) == 3 and rorder == uargs + body
+    reader_ok = (len(uargs) == 3 and rorder == uargs + body) if pev is None else not pev[1]
+    ok = len(pargs) == 3 and pargs[0] == "self.frag_id" and pargs[1] in ("1 + index", "index + 1") and pargs[2] == "len(self.fragments)" and reader_ok
     ctx.check(ok, "C06.R1", bld, "prefix fields (frag_id, 1+index, count) in the same order on both sides",
               "id, 1-based index and fragment count are written and read in the same positions", witness={"pack": pargs, "unpack": uargs, "returns": rorder})
     # receiver consumes the tuple in that order
